@@ -58,6 +58,7 @@ type uw struct {
 	info   []int
 	sent   http.Header // snapshot of the header map when the status line was written
 	body   []byte
+	flushes int
 }
 
 func newUW() *uw { return &uw{hdr: http.Header{}} }
@@ -82,6 +83,34 @@ func (u *uw) Write(b []byte) (int, error) {
 	u.body = append(u.body, b...)
 	return len(b), nil
 }
+func (u *uw) flush() {
+	if !u.wrote {
+		u.WriteHeader(200) // the client receives the pending (implicit 200) header
+	}
+	u.flushes++
+}
+
+// what the underlying writer offers for flushing: nothing, http.Flusher, FlushError() error
+type uwF struct{ *uw }
+
+func (u uwF) Flush() { u.flush() }
+
+type uwFE struct{ *uw }
+
+func (u uwFE) FlushError() error { u.flush(); return nil }
+
+var flushKinds = []string{"FNone", "FFlusher", "FFlushError"}
+
+func (u *uw) as(kind int) http.ResponseWriter {
+	switch kind {
+	case 1:
+		return uwF{u}
+	case 2:
+		return uwFE{u}
+	}
+	return u
+}
+
 func (u *uw) final() int {
 	if !u.wrote {
 		return 200 // net/http sends an implicit 200 when the handler returns without writing
@@ -101,7 +130,7 @@ func hdrString(h http.Header) string {
 	return sb.String()
 }
 func (u *uw) digest() string {
-	return fmt.Sprintf("wrote=%v status=%d info=%v sent={%s} final={%s} body=%q", u.wrote, u.status, u.info, hdrString(u.sent), hdrString(u.hdr), u.body)
+	return fmt.Sprintf("wrote=%v status=%d info=%v sent={%s} final={%s} body=%q flushes=%d", u.wrote, u.status, u.info, hdrString(u.sent), hdrString(u.hdr), u.body, u.flushes)
 }
 
 // ---------- scripts ----------
@@ -111,6 +140,7 @@ const (
 	aWrite
 	aSetLocation
 	aPanic
+	aFlush
 )
 
 type act struct {
@@ -119,6 +149,8 @@ type act struct {
 	n    int
 	loc  string
 	pid  int
+	fk   int // aFlush: what the underlying writer offers (filled when served)
+	via  int // aFlush: 0 c.Writer().FlushError(), 1 http.NewResponseController(w).Flush()
 }
 
 func (a act) coq() string {
@@ -129,6 +161,8 @@ func (a act) coq() string {
 		return "AWrite " + hx.Z(int64(a.n))
 	case aSetLocation:
 		return "ASetLocation " + hx.Bytes(a.loc)
+	case aFlush:
+		return "AFlush " + flushKinds[a.fk]
 	default:
 		return "APanic " + hx.N(uint64(a.pid))
 	}
@@ -141,6 +175,8 @@ func (a act) String() string {
 		return fmt.Sprintf("Write(%d bytes)", a.n)
 	case aSetLocation:
 		return fmt.Sprintf("SetHeader(Location,%q)", a.loc)
+	case aFlush:
+		return fmt.Sprintf("%s[underlying:%s]", []string{"FlushError()", "ResponseController.Flush()"}[a.via], flushKinds[a.fk])
 	default:
 		return fmt.Sprintf("panic(value#%d)", a.pid)
 	}
@@ -172,6 +208,12 @@ func scripted(c fox.Context) {
 			}
 		case aSetLocation:
 			c.SetHeader(fox.HeaderLocation, a.loc)
+		case aFlush:
+			if a.via == 0 {
+				_ = c.Writer().FlushError()
+			} else {
+				_ = http.NewResponseController(c.Writer()).Flush()
+			}
 		case aPanic:
 			panic(panicValues[a.pid])
 		}
@@ -371,7 +413,7 @@ type observed struct {
 	after    bool
 }
 
-func serve(f *fox.Router, w *world, rq reqSpec, host string, rm remote, script []act) observed {
+func serve(f *fox.Router, w *world, rq reqSpec, host string, rm remote, script []act, fk int) observed {
 	w.recs, w.events = nil, nil
 	cur = script
 	u := newUW()
@@ -391,7 +433,7 @@ func serve(f *fox.Router, w *world, rq reqSpec, host string, rm remote, script [
 				}
 			}
 		}()
-		f.ServeHTTP(u, req)
+		f.ServeHTTP(u.as(fk), req)
 	}()
 	o.recs = w.recs
 	o.status = u.final()
@@ -473,6 +515,21 @@ func genScript(r *hx.Rand) []act {
 	}
 	loc := func() string { return hx.Pick(r, []string{"/next", "https://example.org/a?b=c", "../up", "x"}) }
 	var s []act
+	if r.Pct(18) { // flush first, then WriteHeader(other code) / Write / nothing
+		s = []act{{kind: aFlush, via: r.Intn(2)}}
+		switch r.Intn(5) {
+		case 0:
+		case 1:
+			s = append(s, act{kind: aWriteHeader, code: st()})
+		case 2:
+			s = append(s, act{kind: aWrite, n: r.Range(1, 20)}, act{kind: aFlush, via: r.Intn(2)})
+		case 3:
+			s = append(s, act{kind: aWriteHeader, code: hx.Pick(r, []int{500, 502, 404, 302})}, act{kind: aWrite, n: 21})
+		default:
+			s = []act{{kind: aWriteHeader, code: 103}, {kind: aFlush, via: r.Intn(2)}, {kind: aSetLocation, loc: loc()}, {kind: aWriteHeader, code: hx.Pick(r, []int{301, 500})}}
+		}
+		return maybePanic(r, s)
+	}
 	switch r.Intn(12) {
 	case 0:
 	case 1:
@@ -506,6 +563,10 @@ func genScript(r *hx.Rand) []act {
 			}
 		}
 	}
+	return maybePanic(r, s)
+}
+
+func maybePanic(r *hx.Rand, s []act) []act {
 	if r.Pct(15) {
 		at := r.Intn(len(s) + 1)
 		s = append(append(append([]act{}, s[:at]...), act{kind: aPanic, pid: r.Intn(len(panicValues))}), s[at:]...)
@@ -528,7 +589,7 @@ func main() {
 			"Definition viol := Eval vm_compute in spec_violations cases.\nPrint viol.\n" +
 			"Definition oof := Eval vm_compute in fuel_outs cases.\nPrint oof.\n",
 	}
-	st := &hx.Stats{Rule: "per configuration (router-wide resolver: none/ok/error tree; per-route resolver: inherit/nil/set; default or scripted 404/405/OPTIONS handlers) two routers are built (with and without LoggerWithHandler(capture)); every request kind (route, route via ignore-trailing-slash, 404, 405, redirect 301/308, OPTIONS) is served with scripts of writer actions: (a) every status of a boundary list alone, (b) seeded random scripts (no write, implicit 200, 1xx then final, superfluous WriteHeader, Location before/after the status line, panic with one of 6 values at a random position); non-trivial = anything but a plain 2xx route request without resolver; distinct = distinct (configuration, request, host, remote, script) tuples"}
+	st := &hx.Stats{Rule: "per configuration (router-wide resolver: none/ok/error tree; per-route resolver: inherit/nil/set; default or scripted 404/405/OPTIONS handlers) two routers are built (with and without LoggerWithHandler(capture)); every request kind (route, route via ignore-trailing-slash, 404, 405, redirect 301/308, OPTIONS) is served with scripts of writer actions: (a) every status of a boundary list alone, (b) seeded random scripts (no write, implicit 200, 1xx then final, superfluous WriteHeader, Location before/after the status line, Flush/FlushError first (c.Writer().FlushError() or http.NewResponseController(w).Flush(), on an underlying writer offering nothing / http.Flusher / FlushError() error; enumerated with then-nothing / WriteHeader(500|404|302) / Write) — the underlying writers record what the CLIENT received (first final status forwarded; 200 after a bare flush or write), panic with one of 6 values at a random position); non-trivial = anything but a plain 2xx route request without resolver; distinct = distinct (configuration, request, host, remote, script) tuples"}
 	seen := map[string]bool{}
 	nontrivial := 0
 
@@ -583,6 +644,17 @@ func main() {
 						scripts = append(scripts, []act{{kind: aWriteHeader, code: s}})
 					}
 				}
+				if ci < 3 || tier == "thorough" {
+					// flush first on each kind of underlying writer, through both entry points, then
+					// WriteHeader(other code) / Write / nothing  (fk is stamped below from the script index)
+					for via := 0; via < 2; via++ {
+						for _, tail := range [][]act{nil, {{kind: aWriteHeader, code: 500}}, {{kind: aWriteHeader, code: 404}, {kind: aWrite, n: 4}}, {{kind: aWrite, n: 7}}, {{kind: aWriteHeader, code: 302}}} {
+							for fk := 0; fk < 3; fk++ {
+								scripts = append(scripts, append([]act{{kind: aFlush, via: via, fk: fk + 10}}, tail...))
+							}
+						}
+					}
+				}
 				for i := 0; i < nrand; i++ {
 					scripts = append(scripts, genScript(rnd))
 				}
@@ -592,8 +664,19 @@ func main() {
 			for _, script := range scripts {
 				host := hx.Pick(rnd, hosts)
 				rm := hx.Pick(rnd, remotes)
-				o := serve(withL, w, rq, host, rm, script)
-				b := serve(without, w0, rq, host, rm, script)
+				// what the underlying writer offers for flushing (forced by the enumerated flush scripts)
+				fk := rnd.Intn(3)
+				script = append([]act{}, script...)
+				for i := range script {
+					if script[i].kind == aFlush && script[i].fk >= 10 {
+						fk = script[i].fk - 10
+					}
+				}
+				for i := range script {
+					script[i].fk = fk
+				}
+				o := serve(withL, w, rq, host, rm, script, fk)
+				b := serve(without, w0, rq, host, rm, script, fk)
 				same := o.digest == b.digest && o.panicID == b.panicID
 				// the script the MODEL is given: for handlers fox supplies itself (default 404/405/OPTIONS,
 				// trailing-slash redirect) it is read off the underlying writer of the Logger-less router
